@@ -58,8 +58,9 @@ RemoveOf(T, f, vals) == SelectSeq(T, LAMBDA r : Get(r, f) \notin Range(vals))
 \* split_by_feature(f): one part per distinct value, first-appearance order
 SplitOf(T, f) == LET dv == DistinctSeq(T, f) IN [k \in DOMAIN dv |-> Sel(T, f, dv[k])]
 
-\* get_motl_intersection(T1, T2) on the subtomogram number
-IntersectOf(T1, T2) == LET ids == ColVals(T2, "sid") IN SelectSeq(T1, LAMBDA r : r.sid \in ids)
+\* get_motl_intersection(T1, T2, feature_id = f); default field: the subtomogram number
+IntersectOfBy(T1, T2, f) == LET ids == ColVals(T2, f) IN SelectSeq(T1, LAMBDA r : Get(r, f) \in ids)
+IntersectOf(T1, T2) == IntersectOfBy(T1, T2, "sid")
 
 \* drop_duplicates(dupf, "score", asc): one row per value of dupf, best score (asc: lowest), first such row;
 \* the result is ordered by the value of dupf
@@ -139,10 +140,11 @@ RemoveComplementsSubset(T, f, vals, P) ==
 
 \* "intersection keeps exactly the first list's rows whose id occurs in the second" (each at most once per own
 \* occurrence)
-IntersectionExact(T1, T2, P) ==
+IntersectionExactBy(T1, T2, f, P) ==
     /\ \A r \in Range(T1) \cup Range(P) :
-           Count(P, r) = IF r.sid \in ColVals(T2, "sid") THEN Count(T1, r) ELSE 0
-    /\ Len(P) = Len(SelectSeq(T1, LAMBDA r : r.sid \in ColVals(T2, "sid")))
+           Count(P, r) = IF Get(r, f) \in ColVals(T2, f) THEN Count(T1, r) ELSE 0
+    /\ Len(P) = Len(SelectSeq(T1, LAMBDA r : Get(r, f) \in ColVals(T2, f)))
+IntersectionExact(T1, T2, P) == IntersectionExactBy(T1, T2, "sid", P)
 
 \* "duplicate dropping keeps exactly one best-scoring row per id"
 DropDupOneBest(T, dupf, asc, P) ==
